@@ -134,7 +134,7 @@ class _LogTap(logging.Handler):
             if record.levelno >= logging.WARNING:
                 w.warn_count += 1
                 if len(w.warns) < 6:
-                    w.warns.append(record.getMessage()[:120])
+                    w.warns.append(_ADDR.sub('0x?', record.getMessage().replace(w.scratch, '<scratch>'))[:120])
             elif record.name.endswith('file.writer'):
                 m = record.getMessage()
                 if m.startswith('Total file size is '):
@@ -579,6 +579,16 @@ class World:
         v = self.codec.dec(op['v'])
         out = write_struct(RepresentationCode[op['code']], v)
         r['bytes'] = bytes(out).hex()
+
+    def op_item_id(self, op, r):
+        """The bytes emitted for an object's identity: as the object's own component, as an OBNAME and as an OBJREF value."""
+        from dliswriter.utils.internal.struct_writer import write_struct
+        from dliswriter import RepresentationCode
+        item = self.objs[op['h']]
+        r['own'] = bytes(item.obname).hex()
+        r['obname'] = bytes(write_struct(RepresentationCode.OBNAME, item)).hex()
+        r['objref'] = bytes(write_struct(RepresentationCode.OBJREF, item)).hex()
+        r['props'] = [item.origin_reference, item.copy_number, item.name]
 
     def op_cache_info(self, op, r):
         from dliswriter.utils.internal.struct_writer import write_struct
